@@ -6,6 +6,10 @@
 //   trace_oc|diagonal_oc S:<view|eval> A:a I:off                     axes defaulted, constant offset (-1,0,1)
 //   trace_oa|diagonal_oa S:<view|eval> A:a I:off I:ax1               axis2 defaulted
 //   trace_ct|diagonal_ct S:<view|eval> A:a I:off I:ax1 I:ax2         all constants (offset -1..1, listed axis pairs)
+//   trace_dt             S:<view|eval> S:<T> S:<D> A:a I:off I:ax1 I:ax2   the dtype ARGUMENT, run-time offset / axes, element type T
+//   trace_dtc            S:<view|eval> S:<T> S:<D> A:a I:off I:ax1 I:ax2   the dtype argument with constant offset (0,1) / axes ((0,1),(-2,-1))
+//   vecdot_dt            S:<view|eval> S:<TA> S:<TB> S:<D> A:a A:b         vecdot(a, b, dtype)
+//        -> "<values> ; view=<type> eval=<type> evalsame=<1|0>"   ((T,D) / (TA,TB,D) combinations of the generator only)
 //   tdot_d               S:<view|eval|fix> A:a A:b                   axes defaulted (2)
 //   tdot_ct              S:<view|eval> A:a A:b I:n                   constant integer axes 0..3
 //   tdotx_ct             S:<view|eval> A:a A:b L:axa L:axb           constant explicit axes (listed pairings)
@@ -15,7 +19,11 @@
 #include "nmtools/array/array/tensordot.hpp"
 #include "nmtools/array/array/trace.hpp"
 #include "nmtools/array/array/diagonal.hpp"
+#include "nmtools/array/view/vecdot.hpp"
+#include "nmtools/array/array/vecdot.hpp"
+#include "nmtools/array/eval.hpp"
 #include "show.hpp"
+#include <cstdint>
 
 namespace view = nmtools::view;
 namespace arr = nmtools::array;
@@ -51,10 +59,81 @@ static std::string with_ct_axes(bool tr, bool v, const A& a, O off, int ax1, int
 }
 #endif
 
+
+// ---- typed operands and the element type tag (conventions of c16_dtype_1.cpp: floating data are halves)
+template <typename T> static std::string tname() {
+    if constexpr (std::is_floating_point_v<T>) return sizeof(T) == 4 ? "f32" : "f64";
+    else if constexpr (std::is_integral_v<T>) return std::string(std::is_signed_v<T> ? "i" : "u") + std::to_string(8 * sizeof(T));
+    else return "other";
+}
+template <typename V> static std::string elem_name(const V&) { return tname<meta::get_element_type_t<meta::remove_cvref_t<V>>>(); }
+template <typename T> static dyn_t<T> typed_array(const Arg& a) {
+    dyn_t<T> r; std::vector<size_t> shp(a.shape.begin(), a.shape.end()); r.resize(shp);
+    std::vector<size_t> idx(shp.size(), 0); size_t n = 1; for (auto e : shp) n *= e;
+    for (size_t c = 0; c < n; c++) {
+        if constexpr (std::is_floating_point_v<T>) r(idx) = (T)a.list[c] / (T)2; else r(idx) = (T)a.list[c];
+        for (int k = (int)shp.size() - 1; k >= 0; k--) { if (++idx[k] < shp[k]) break; idx[k] = 0; }
+    }
+    return r;
+}
+// view given: values + type of the view, of its evaluation, and whether they agree; eager result given: its values + type
+template <typename MV> static std::string show_tag(const MV& mv, bool is_view) {
+    if constexpr (meta::is_maybe_v<MV>) { if (!nm::has_value(mv)) return "nothing"; }
+    const auto& v = nm::unwrap(mv);
+    using V = meta::remove_cvref_t<decltype(v)>;
+    std::string tag; if constexpr (meta::is_num_v<V>) tag = tname<V>(); else tag = elem_name(v);
+    if (!is_view) return show(v) + " ; view=" + tag + " eval=" + tag + " evalsame=1";      // eager API: one object
+    if constexpr (meta::is_num_v<V>) return show(v) + " ; view=" + tag + " eval=" + tag + " evalsame=1";
+    else {
+        auto r = nm::array::eval(v, nm::None, nm::None, meta::as_value_v<nm::array::eval_result_t<>>);
+        const auto& rr = nm::unwrap(r);
+        using R = meta::remove_cvref_t<decltype(rr)>;
+        std::string et; if constexpr (meta::is_num_v<R>) et = tname<R>(); else et = elem_name(rr);
+        return show(v) + " ; view=" + tag + " eval=" + et + " evalsame=" + (show(rr) == show(v) ? "1" : "0");
+    }
+}
+template <typename T, typename D> static std::string trace_dtype(const Case& c, bool v, bool constant, D dtype) {
+    auto a = typed_array<T>(c.args[3]);
+    int off = (int)c.args[4].val, ax1 = (int)c.args[5].val, ax2 = (int)c.args[6].val;
+    if (!constant) return v ? show_tag(view::trace(a, off, ax1, ax2, dtype), true) : show_tag(arr::trace(a, off, ax1, ax2, dtype), false);
+#ifndef VD_LIGHT
+    #define TRC(O, P, Q) if (off == O && ax1 == P && ax2 == Q) return v ? show_tag(view::trace(a, ct_v<O>, ct_v<P>, ct_v<Q>, dtype), true) : show_tag(arr::trace(a, ct_v<O>, ct_v<P>, ct_v<Q>, dtype), false);
+    TRC(0, 0, 1) TRC(1, 0, 1) TRC(0, -2, -1) TRC(1, -2, -1)
+    #undef TRC
+#endif
+    return "unsupported";
+}
+template <typename TA, typename TB, typename D> static std::string vecdot_dtype(const Case& c, bool v, D dtype) {
+    auto a = typed_array<TA>(c.args[4]); auto b = typed_array<TB>(c.args[5]);
+    return v ? show_tag(view::vecdot(a, b, dtype), true) : show_tag(arr::vecdot(a, b, dtype), false);
+}
+
 static std::string handle(const Case& c) {
     const std::string& op = c.op;
     std::string k = c.args[0].raw.substr(2);
     bool v = (k == "view");
+    if (op == "trace_dt" || op == "trace_dtc") {
+        if (k != "view" && k != "eval") return "unsupported";
+        const std::string t = c.args[1].raw.substr(2), d = c.args[2].raw.substr(2); bool cst = (op == "trace_dtc");
+        if (t == "i8" && d == "i32") return trace_dtype<int8_t>(c, v, cst, nm::int32);
+        if (t == "i8" && d == "i64") return trace_dtype<int8_t>(c, v, cst, nm::int64);
+        if (t == "u8" && d == "i32") return trace_dtype<uint8_t>(c, v, cst, nm::int32);
+        if (t == "i16" && d == "f64") return trace_dtype<int16_t>(c, v, cst, nm::float64);
+        if (t == "i16" && d == "i64") return trace_dtype<int16_t>(c, v, cst, nm::int64);
+        if (t == "i32" && d == "i8") return trace_dtype<int32_t>(c, v, cst, nm::int8);
+        if (t == "f32" && d == "f64") return trace_dtype<float>(c, v, cst, nm::float64);
+        return "unsupported";
+    }
+    if (op == "vecdot_dt") {
+        if (k != "view" && k != "eval") return "unsupported";
+        const std::string f = c.args[1].raw.substr(2) + ":" + c.args[2].raw.substr(2) + ":" + c.args[3].raw.substr(2);
+        if (f == "i8:i8:i64") return vecdot_dtype<int8_t, int8_t>(c, v, nm::int64);
+        if (f == "u8:i8:i16") return vecdot_dtype<uint8_t, int8_t>(c, v, nm::int16);
+        if (f == "i16:i32:f64") return vecdot_dtype<int16_t, int32_t>(c, v, nm::float64);
+        if (f == "i32:i32:i8") return vecdot_dtype<int32_t, int32_t>(c, v, nm::int8);
+        if (f == "i8:f32:f64") return vecdot_dtype<int8_t, float>(c, v, nm::float64);
+        return "unsupported";
+    }
     bool is_tr = op.rfind("trace", 0) == 0, is_dg = op.rfind("diagonal", 0) == 0;
     if (is_tr || is_dg) {
         std::string form = op.substr(op.find('_') + 1);
